@@ -31,6 +31,20 @@ type Violation struct {
 	// Replay is the machine-readable recipe understood by the property's
 	// replay function (fresh process, no explorer).
 	Replay json.RawMessage `json:"replay,omitempty"`
+	// ProcessPrefix, when present, lists the work items the same worker process had handled before the one in
+	// Replay: the violation reproduces (deterministically, in a fresh process) only after them, i.e. the code
+	// under test carries state from the instances of one work item to those of the next.
+	ProcessPrefix *ProcPrefix `json:"process_prefix,omitempty"`
+	Note          string      `json:"note,omitempty"`
+
+	prefixFn func() *ProcPrefix // how to obtain ProcessPrefix if it is needed (only evaluated when a replay alone fails)
+}
+
+// ProcPrefix is a sequence of work items of one job, in the order one process handled them.
+type ProcPrefix struct {
+	Job   string            `json:"job"`
+	Items []json.RawMessage `json:"items"`
+	whole json.RawMessage   // the work item itself, as it was handed to the worker (Replay may be narrowed to one probe of it)
 }
 
 func (v Violation) Sig() string { return v.Property + "|" + v.Clause + "|" + v.Class }
@@ -93,8 +107,20 @@ func rerun(v *Violation) (string, error) {
 	if j == nil {
 		return "", fmt.Errorf("unknown job %q", jr.Job)
 	}
+	if pp := v.ProcessPrefix; pp != nil {
+		pj := jobs[pp.Job]
+		if pj == nil {
+			return "", fmt.Errorf("unknown job %q", pp.Job)
+		}
+		for _, it := range pp.Items {
+			pj(it) // what it reports was reported when it ran; here it only brings the process into the same state
+		}
+	}
 	out, err := j(jr.Item)
 	if err != nil {
+		if strings.HasPrefix(v.Class, "work-item-fails-after-earlier-items:") {
+			return "job error: " + err.Error(), nil
+		}
 		return "", err
 	}
 	b, _ := json.Marshal(out)
@@ -173,6 +199,7 @@ type RunCtx struct {
 	capped     []string
 	outcomes   map[string]struct{}
 	failed     string // harness failure → exit 2
+	curPrefix  func() *ProcPrefix // set while the results of one work item are being handled
 	hung       bool   // a work item did not return: the remaining items of all jobs are skipped
 }
 
@@ -186,6 +213,9 @@ func (rc *RunCtx) Report(v Violation) {
 		v.Property = rc.ID
 	}
 	v.Class = strings.ReplaceAll(v.Class, " ", "-") // signatures are space-free (known_findings.txt is word-split)
+	if v.Replay != nil && v.prefixFn == nil {
+		v.prefixFn = rc.curPrefix
+	}
 	s := v.Sig()
 	rc.violCount[s]++
 	if old, ok := rc.viols[s]; !ok || v.size() < old.size() {
@@ -358,6 +388,26 @@ func parMap[I, O any](rc *RunCtx, job string, items []I, fresh bool, handle func
 		seq int
 		out O
 	}
+	// which items each worker process handled, in order (a violation that does not reproduce alone is replayed
+	// after the items its process had handled before it)
+	var lmu sync.Mutex
+	var lists [][]int
+	type lpos struct{ list, pos int }
+	where := make([]lpos, len(items))
+	prefixOf := func(i int) func() *ProcPrefix {
+		return func() *ProcPrefix {
+			lmu.Lock()
+			defer lmu.Unlock()
+			w := where[i]
+			pp := &ProcPrefix{Job: job}
+			pp.whole, _ = json.Marshal(items[i])
+			for _, k := range lists[w.list][:w.pos] {
+				b, _ := json.Marshal(items[k])
+				pp.Items = append(pp.Items, b)
+			}
+			return pp
+		}
+	}
 	results := make(chan res, 256)
 	next := make(chan int, len(items))
 	for i := range items {
@@ -370,6 +420,7 @@ func parMap[I, O any](rc *RunCtx, job string, items []I, fresh bool, handle func
 		go func(w int) {
 			defer wg.Done()
 			var p *workerProc
+			mine := -1
 			defer func() {
 				if p != nil {
 					p.stop()
@@ -385,7 +436,15 @@ func parMap[I, O any](rc *RunCtx, job string, items []I, fresh bool, handle func
 						rc.Fail("cannot start worker: %v", err)
 						return
 					}
+					lmu.Lock()
+					lists = append(lists, nil)
+					mine = len(lists) - 1
+					lmu.Unlock()
 				}
+				lmu.Lock()
+				where[i] = lpos{mine, len(lists[mine])}
+				lists[mine] = append(lists[mine], i)
+				lmu.Unlock()
 				b, _ := json.Marshal(items[i])
 				if err := p.enc.Encode(wireIn{Job: job, Seq: i, Item: b}); err != nil {
 					rc.Fail("worker %d died before item %d of %s: %v\n%s", w, i, job, err, p.errbuf.String())
@@ -421,6 +480,20 @@ func parMap[I, O any](rc *RunCtx, job string, items []I, fresh bool, handle func
 					break
 				}
 				if o.Err != "" {
+					if pf := prefixOf(i); len(pf().Items) > 0 {
+						// The same work item may well succeed first thing in a fresh process: then it is the earlier items
+						// of this process that made it fail, which finish() establishes by replaying both ways.
+						rc.Report(Violation{Property: rc.ID, Clause: rc.ID + ".process-state", Class: "work-item-fails-after-earlier-items:" + job, Probe: "work item " + trunc(string(b), 400),
+							Observed: "job error: " + o.Err, Expected: "the work item runs as it does first thing in a fresh process: what an instance does never depends on what was done to other instances before it",
+							Replay: ItemReplay(job, json.RawMessage(b)), prefixFn: pf})
+						rc.Capped(fmt.Sprintf("a work item of %s failed in a process that had handled other items before; the remaining work items were skipped", job))
+						rc.mu.Lock()
+						rc.hung = true
+						rc.mu.Unlock()
+						var zero O
+						results <- res{i, zero}
+						continue
+					}
 					rc.Fail("job %s item %d: %s", job, i, o.Err)
 					break
 				}
@@ -448,7 +521,13 @@ func parMap[I, O any](rc *RunCtx, job string, items []I, fresh bool, handle func
 				break
 			}
 			delete(pending, want)
+			rc.mu.Lock()
+			rc.curPrefix = prefixOf(want)
+			rc.mu.Unlock()
 			handle(want, items[want], o)
+			rc.mu.Lock()
+			rc.curPrefix = nil
+			rc.mu.Unlock()
 			want++
 		}
 	}
@@ -687,7 +766,37 @@ func (rc *RunCtx) finish(c *Check) int {
 				}
 				out, err := cmd.CombinedOutput()
 				if err != nil {
-					fmt.Fprintf(os.Stderr, "HARNESS-FAILURE %s: violation %s did not reproduce identically in a fresh process (nondeterministic?):\n%s\nrecord: %s\n", rc.ID, v.Sig(), out, p)
+					// Not alone. After the work items its process had handled before it? (deterministic all the same:
+					// a fresh process, the same items in the same order, twice)
+					var pp *ProcPrefix
+					if v.prefixFn != nil && v.ProcessPrefix == nil {
+						pp = v.prefixFn()
+					}
+					whole := json.RawMessage(nil)
+					if pp != nil {
+						whole = ItemReplay(pp.Job, pp.whole)
+					}
+					switch {
+					case pp != nil && string(whole) != string(v.Replay):
+						// the recipe was narrowed to one probe of its work item: the whole item, as the worker ran it
+						v.Replay = whole
+						v.Note = "reproduces in a fresh process on the whole work item only, not on this probe alone: an instance of the code under test keeps state between one request and the next"
+					case pp != nil && len(pp.Items) > 0:
+						v.ProcessPrefix = pp
+						v.Note = fmt.Sprintf("reproduces in a fresh process only after the %d work items the same process had handled before it (recorded in the replay file): the code under test carries state from one instance to the next", len(pp.Items))
+					default:
+						fmt.Fprintf(os.Stderr, "HARNESS-FAILURE %s: violation %s did not reproduce identically in a fresh process (nondeterministic?):\n%s\nrecord: %s\n", rc.ID, v.Sig(), out, p)
+						return 2
+					}
+					if p, err = writeReplay(rc.Root, v); err != nil {
+						fmt.Fprintln(os.Stderr, "HARNESS-FAILURE cannot write replay:", err)
+						return 2
+					}
+					k = -1 // confirm the longer recipe twice
+					continue
+				} else if strings.HasPrefix(v.Class, "work-item-fails-after-earlier-items:") && v.ProcessPrefix == nil {
+					// the item fails first thing in a fresh process too: that is not what this class claims
+					fmt.Fprintf(os.Stderr, "HARNESS-FAILURE %s: %s: %s\nrecord: %s\n", rc.ID, v.Probe, v.Observed, p)
 					return 2
 				}
 			}
@@ -695,6 +804,9 @@ func (rc *RunCtx) finish(c *Check) int {
 		replayPaths = append(replayPaths, p)
 		fmt.Printf("VIOLATION property=%s replay=%s\n", v.Property, p)
 		fmt.Printf("  clause=%s class=%s (%d occurrences)\n  config=%s\n  history=%s\n  probe=%s\n  observed=%s\n  expected=%s\n", v.Clause, v.Class, rc.violCount[v.Sig()], v.Config, strings.Join(v.History, " ; "), v.Probe, v.Observed, v.Expected)
+		if v.Note != "" {
+			fmt.Printf("  note=%s\n", v.Note)
+		}
 		exit = 1
 	}
 	// evidence
